@@ -401,6 +401,10 @@ func (o *ObjBSI64) copyBSI(method int, f fsArg, seed uint64, recv bsiH) (bsiH, s
 		if err := n.B.UnmarshalBinary(data); err != nil {
 			return nil, "UnmarshalBinary", err
 		}
+		// a copying entry point: the caller recycles its record buffers once the call has returned
+		for _, d := range data {
+			scribble(d)
+		}
 	default:
 		fw := &simio.FaultyWriter{}
 		wn, err := o.B.WriteTo(fw)
@@ -430,6 +434,7 @@ func (o *ObjBSI64) copyBSI(method int, f fsArg, seed uint64, recv bsiH) (bsiH, s
 			return nil, "ReadFrom", err
 		}
 		note += fmt.Sprintf("stream %d bytes, ReadFrom returned %d", len(fw.Data), p)
+		scribble(fw.Data)
 	}
 	keep := f.cols
 	for c, v := range o.M {
@@ -693,6 +698,10 @@ func (o *ObjBSI32) copyBSI(method int, f fsArg, seed uint64, recv bsiH) (bsiH, s
 		}
 		if err := n.B.UnmarshalBinary(data); err != nil {
 			return nil, "UnmarshalBinary", err
+		}
+		// a copying entry point: the caller recycles its record buffers once the call has returned
+		for _, d := range data {
+			scribble(d)
 		}
 	}
 	keep := f.cols
